@@ -120,6 +120,16 @@ def main():
         except Exception as e:  # a generator that cannot parse must fail loudly
             print(f"translator {name} failed: {e!r}", file=sys.stderr)
             rc = 1
+    # scripts under tools/translate.d/ are stand-alone: `script REPO OUT`
+    import subprocess
+    for script in sorted(glob.glob(os.path.join(HERE, "translate.d", "*.py"))):
+        if os.path.basename(script).startswith("_"):
+            continue
+        p = subprocess.run([sys.executable, script, REPO, OUT], capture_output=True, text=True)
+        sys.stderr.write(p.stderr)
+        if p.returncode != 0:
+            print(f"translator {os.path.basename(script)} failed ({p.returncode})", file=sys.stderr)
+            rc = 1
     return rc
 
 
